@@ -32,6 +32,10 @@ def grad_formula(loss_id, theta, train, idx):
     return ((theta * 3 + idx * 7 + loss_id * 5) % 9) - 4
 
 
+def addl_grad_formula(theta, train, idx):
+    return ((theta + idx * 2) % 5) - 2
+
+
 def plain_formula(k):
     return (k * 5) % 7 - 3
 
@@ -49,14 +53,21 @@ class ScriptNet(nn.Module):
         self.register_buffer('seen', torch.tensor(float(theta0), dtype=torch.float64))
         # a frozen parameter (requires_grad=False, as in fine-tuning with frozen layers) that the harness changes between epochs
         self.aux = nn.Parameter(torch.tensor(0.0, dtype=torch.float64), requires_grad=False)
+        # ... and a buffer that changes on EVERY forward pass (as running statistics do)
+        self.register_buffer('calls', torch.tensor(0.0, dtype=torch.float64))
 
     def forward(self, x):
+        MODES.append(self.training)
         with torch.no_grad():
             self.seen.copy_(self.w[0])
+            self.calls.add_(1.0)
         return x[:, :1] * 0 + self.w
 
     def theta(self):
         return int(round(self.w.detach()[0].item()))
+
+
+MODES = []      # training flag of the scripted networks at every forward pass (mode-dependent layers see it)
 
 
 class World:
@@ -173,7 +184,7 @@ class Run:
     """one scripted solver; `kind` in {'1d','2d','bundle','spherical','generic'}"""
 
     def __init__(self, theta0, opt, n_train, n_valid, n_metrics, kind='1d', n_funcs=1, shared=False, n_points=3,
-                 eq_param_index=(), n_theta=0, vary_points=False, loss_scale=1.0):
+                 eq_param_index=(), n_theta=0, vary_points=False, loss_scale=1.0, late_valid0=False):
         from neurodiffeq import solvers as S
         from neurodiffeq.conditions import NoCondition
         self.world = World()
@@ -229,7 +240,7 @@ class Run:
                       train_generator=make_spy_gen(w, True, n_points, n_dims, vary_points),
                       valid_generator=make_spy_gen(w, False, n_points, n_dims, vary_points),
                       optimizer=self.make_opt(opt), loss_fn=make_loss(0), n_batches_train=n_train,
-                      n_batches_valid=n_valid, metrics=metrics)
+                      n_batches_valid=(3 if (late_valid0 and n_valid == 0) else n_valid), metrics=metrics)
         with warnings.catch_warnings():
             warnings.simplefilter('ignore')
             if kind == '1d':
@@ -243,6 +254,8 @@ class Run:
             elif kind == 'bundle':
                 self.solver = S.BundleSolver1D(eqs, t_min=0., t_max=1., theta_min=(0.,) * n_theta, theta_max=(1.,) * n_theta,
                                                eq_param_index=tuple(eq_param_index), **common)
+        if late_valid0 and n_valid == 0:
+            self.solver.n_batches['valid'] = 0      # validation switched off after construction (n_batches is a public, mutable dict)
         # the solver's overridable additional_loss term (public extension point), active when world.addl is set
         import types
 
@@ -250,7 +263,10 @@ class Run:
             if not w.addl:
                 return 0
             train, idx = decode_idx(coords[0])
-            return float(addl_formula(self.nets[0].theta(), train, idx)) * self.scale
+            th = self.nets[0].theta()
+            probe = funcs[0].reshape(-1)[0]
+            # value addl_formula (0 in one case out of five), gradient addl_grad_formula: a term may vanish where its gradient does not
+            return float(addl_formula(th, train, idx)) * self.scale + float(addl_grad_formula(th, train, idx)) * (probe - probe.detach())
         self.solver.additional_loss = types.MethodType(additional_loss, self.solver)
         self.sched = {}
         self.call = 0
@@ -259,6 +275,8 @@ class Run:
         self.sols = []
         self.best_obs = []      # per epoch: (best w, best 'seen' buffer, optimiser kind, n_batches_valid)
         self.live_obs = []      # per epoch: the 'live' metric series (train, valid)
+        self.best_mode_obs = []
+        del MODES[:]
         self.aux_obs = []       # per epoch: (frozen parameter inside best_nets, its value when that snapshot was taken)
         self._aux_bumps = 0
         self._aux_at_snapshot = None
@@ -305,7 +323,11 @@ class Run:
                         SetLossFn(run.make_loss(act[1]), reset=True)(solver)
 
         class Dump:
-            """last callback of the list: every callback must run in every epoch, also after a stop request"""
+            """last callback of the list: every callback must run in every epoch, also after a stop request.
+            (The object is falsy - it has a length of 0, like a recorder that has not recorded yet - which must not matter.)"""
+            def __len__(cb):
+                return 0
+
             def __call__(cb, solver):
                 w.events.append(f'C{call}:{solver.local_epoch}')
                 run.out.append('E ' + run.dump())
@@ -322,11 +344,14 @@ class Run:
                 run._aux_bumps += 1
                 if solver.best_nets is not None:
                     b = solver.best_nets[0]
+                    run.best_mode_obs.append((bool(b.training), bool(solver.nets[0].training), call, solver.local_epoch))
                     run.best_obs.append((b.theta(), int(round(b.seen.item())), getattr(run, '_best_opt_kind', None),
                                          solver.n_batches['valid'], call, solver.local_epoch))
         with warnings.catch_warnings():
             warnings.simplefilter('ignore')
             self.solver.fit(max_epochs, callbacks=[Sched()] + list(extra_callbacks) + [Dump()], tqdm_file=None)
+        self.eval_mode_forwards = getattr(self, 'eval_mode_forwards', 0) + sum(1 for m in MODES if not m)
+        del MODES[:]
         self.out.append('F agree=true ' + self.dump())
         self.out.append('LOG ' + ' '.join(w.events))
         self.out.append('GRADS [' + ','.join(str(g) for g in w.grads) + ']')
@@ -370,6 +395,7 @@ def run_script(lines, **kw):
             path = tempfile.mktemp(prefix='verif-c18-')
             dill.settings['byref'] = p[1] == '1'     # '0': dill as installed (pickling torch optimiser classes fails)
             wrote = True
+            sd_before = None if run.solver.best_nets is None else [{k: v.clone() for k, v in n.state_dict().items()} for n in run.solver.best_nets]
             try:
                 run.solver.save(path=path)
             except Exception as e:
@@ -378,6 +404,9 @@ def run_script(lines, **kw):
             finally:
                 dill.settings['byref'] = False
             run.saved_path = path if wrote else None
+            sd_after = None if run.solver.best_nets is None else [{k: v.clone() for k, v in n.state_dict().items()} for n in run.solver.best_nets]
+            if sd_before is not None and sd_after is not None and any(not torch.equal(a[k], b[k]) for a, b in zip(sd_before, sd_after) for k in a):
+                run.save_touched_best = True
             out.append(f'SAVE wrote={"true" if wrote else "false"} ' + run.dump())
         elif p[0] == 'saveload':
             import tempfile, dill, os, io, contextlib
